@@ -2,6 +2,7 @@ import NxProofs.Cipher
 import NxProofs.Refine
 import NxProofs.RefineSend
 import NxProofs.Sys
+import NxProofs.Liveness
 import NxProps.C04
 /-!
 # C01 — PRUDP reliable channel: in-order, exactly-once, uncorrupted delivery
@@ -105,6 +106,31 @@ theorem C01_progress (c : Cipher) (hc : CipherOk c) (size : Nat) (hsz : 1 ≤ si
   have : 0 < (ch.r.win.update (idOf start ch.r.nrel) w).2.length := List.length_pos_iff.mpr hne
   omega
 
+/-- **Liveness, the receiver's half.** In a run within the half-window hypothesis, if every packet of the final log has
+    arrived at least once while the receiver was open — in any order, with any duplicates, interleaved with further sends,
+    pings and fragments — then the sliding window has released the whole log. (That at least one copy of every packet arrives
+    is what "faults within the retransmission budget" gives: each packet is re-sent until acknowledged, C02 `resend_chain`.) -/
+theorem C01_all_arrived_all_released (c : Cipher) (hc : CipherOk c) (size : Nat) (hsz : 1 ≤ size) (start : Nat) (hs : start < 65536)
+    (ops : List Op) (hok : runOk c size (init start) ops = true)
+    (hopen : (run c size (init start) ops).r.core.closed = false)
+    (hall : ∀ j, j < (run c size (init start) ops).s.log.length → j ∈ arrived c size (init start) ops) :
+    (run c size (init start) ops).r.nrel = (run c size (init start) ops).s.log.length :=
+  all_arrived_all_released c hc size hsz start hs ops hok hopen hall
+
+/-- **Liveness.** While both sides keep the connection open (no DISCONNECT released, none issued) and no `send` is between
+    its fragments: once every emitted packet has arrived at least once, every message passed to `send` has been delivered,
+    exactly once and in order, nothing partial is pending and the cipher positions agree. -/
+theorem C01_liveness (c : Cipher) (hc : CipherOk c) (size : Nat) (hsz : 1 ≤ size) (start : Nat) (hs : start < 65536)
+    (ops : List Op) (hok : runOk c size (init start) ops = true)
+    (hopen : (run c size (init start) ops).r.core.closed = false)
+    (hall : ∀ j, j < (run c size (init start) ops).s.log.length → j ∈ arrived c size (init start) ops)
+    (hidle : (run c size (init start) ops).s.pending = [])
+    (hclean : (run c size (init start) ops).s.closing = false ∨ (run c size (init start) ops).s.clean = true) :
+    (run c size (init start) ops).r.core.reasm.out = (run c size (init start) ops).s.sent ∧
+    (run c size (init start) ops).r.core.reasm.buf = [] ∧
+    (run c size (init start) ops).r.core.decPos = (run c size (init start) ops).s.encPos :=
+  C01_complete c hc size hsz start hs ops hok (all_arrived_all_released c hc size hsz start hs ops hok hopen hall) hidle hclean
+
 /-- the one-step `send` of the model is `begin` followed by one `frag` per fragment: the fragment-granular operations
     describe the same call, they only allow other things to happen in between -/
 theorem send_is_begin_then_frags (c : Cipher) (size : Nat) (s : Sender) (m : Bytes) (hcl : s.closing = false) (hp : s.pending = []) :
@@ -155,6 +181,15 @@ example :
       (run idCipher 2 (init 7) ops).s.log.map (·.kind) = [.data 1, .ping, .data 2, .data 0] ∧
       (run idCipher 2 (init 7) ops).r.core.reasm.out = [[1, 2, 3, 4, 5]] ∧
       (run idCipher 2 (init 7) ops).s.sent = [[1, 2, 3, 4, 5]] ∧ (run idCipher 2 (init 7) ops).s.pending = [] := by decide
+
+/-- the hypotheses of `C01_liveness` are met by a run in which the first copy of a packet is lost (never arrives), later
+    packets arrive before its retransmission, a duplicate arrives late, and a ping falls inside the second message -/
+example :
+    let ops := [Op.send [1, 2, 3], .arrive 1, .begin [4, 5, 6], .frag, .ping, .arrive 3, .arrive 2, .frag, .arrive 0, .arrive 4, .arrive 1]
+    runOk idCipher 2 (init 65534) ops = true ∧ (run idCipher 2 (init 65534) ops).r.core.closed = false ∧
+      (∀ j, j < (run idCipher 2 (init 65534) ops).s.log.length → j ∈ arrived idCipher 2 (init 65534) ops) ∧
+      (run idCipher 2 (init 65534) ops).s.pending = [] ∧ (run idCipher 2 (init 65534) ops).s.closing = false ∧
+      (run idCipher 2 (init 65534) ops).r.core.reasm.out = [[1, 2, 3], [4, 5, 6]] := by decide
 
 /-- a `send` that is still between its fragments: the hypotheses of `C01_complete_in_progress` are met -/
 example :
@@ -260,6 +295,24 @@ theorem C01_system_complete (env : Env) (hcomp : ∀ b, env.compress b = b) (hde
     ((Sys.run env sub s ops).b.queues[sub]?.getD []) = (Sys.run env sub s ops).accepted ∧
     ((Sys.run env sub s ops).b.eof = false → ((Sys.run env sub s ops).b.fragBufs[sub]?.getD []) = []) :=
   good_complete (sys_refines env hcomp hdec sub ci size hsz start ops s ch h0 hok).1 hall hidle
+
+open Nx.L1 Nx.Prudp in
+/-- **Liveness, end to end.** Starting from the initial channel: if the receiving endpoint is still open, no `send` is between
+    its fragments, and every packet the sending endpoint handed to its transport has been delivered at least once (as seen in
+    the corresponding channel run), the receiving application has exactly the accepted messages. -/
+theorem C01_system_liveness (env : Env) (hcomp : ∀ b, env.compress b = b) (hdec : ∀ b, env.decompress b = .ok b)
+    (sub : Nat) (ci : Cipher) (size : Nat) (hsz : 1 ≤ size) (start : Nat) (hs : start < 65536) (ops : List SysOp) (s : Sys)
+    (h0 : Good sub ci size start s (Chan.init start)) (hok : Sys.runOk env sub s ops = true)
+    (hopen : (Sys.run env sub s ops).b.eof = false) (hidle : (Sys.run env sub s ops).pend = [])
+    (hall : ∀ j, j < (Sys.run env sub s ops).net.length → j ∈ arrived ci size (Chan.init start) (Sys.absOps env sub s ops)) :
+    ((Sys.run env sub s ops).b.queues[sub]?.getD []) = (Sys.run env sub s ops).accepted := by
+  obtain ⟨hg, hrok⟩ := sys_refines env hcomp hdec sub ci size hsz start ops s (Chan.init start) h0 hok
+  have hcl : (Chan.run ci size (Chan.init start) (Sys.absOps env sub s ops)).r.core.closed = false := by
+    rw [hg.cpl.rrel.closed]; exact hopen
+  have hlen : (Chan.run ci size (Chan.init start) (Sys.absOps env sub s ops)).s.log.length = (Sys.run env sub s ops).net.length := by
+    rw [← hg.cpl.log, List.length_map]
+  have hrel := all_arrived_all_released ci (good_cipher hg) size hsz start hs _ hrok hcl (fun j hj => hall j (by rw [← hlen]; exact hj))
+  exact (good_complete hg (by rw [hg.cpl.nrel, hrel, hlen]) hidle).1
 
 open Nx.L1 Nx.Prudp in
 /-- the hypothesis `Good` holds at the start: for every environment, every substream the settings allow and every choice of
